@@ -6,6 +6,7 @@ CONSTANTS Threads = {1,2,3}
   Kinds = {"cbk"}
   MaxLen = 2
   Variant = "faithful"
+  Emb = {}
 INVARIANT TypeOK
 PROPERTY RefinesIdeal
 PROPERTY NonInterference
